@@ -272,7 +272,10 @@ static int async_opt_by_name(const char *n) {
 	if (!strcmp(n, "con_timeout")) return KSI_ASYNC_OPT_CON_TIMEOUT; if (!strcmp(n, "rcv_timeout")) return KSI_ASYNC_OPT_RCV_TIMEOUT; if (!strcmp(n, "snd_timeout")) return KSI_ASYNC_OPT_SND_TIMEOUT;
 	if (!strcmp(n, "cache_size")) return KSI_ASYNC_OPT_REQUEST_CACHE_SIZE; if (!strcmp(n, "max_request_count")) return KSI_ASYNC_OPT_MAX_REQUEST_COUNT; return -1;
 }
-static void tag_free(void *p) { free(p); }
+/* request context of an async handle: the tag, plus inputs the handle only borrows (KSI_AsyncExtendingHandle_new keeps the
+ * caller's publication record pointer), released together with the handle */
+typedef struct { char tag[64]; KSI_PublicationRecord *pr; } TagCtx;
+static void tag_free(void *p) { TagCtx *t = p; if (t) { KSI_PublicationRecord_free(t->pr); free(t); } }
 
 static size_t conf_cb_calls; static char conf_last[512];
 static void fmt_config(KSI_Config *cfg, char *out, size_t n) {
@@ -369,16 +372,19 @@ int kx_net_dispatch(char **tok, int ntok, int *handled) {
 	if (is("async_opt")) { int o = async_opt_by_name(tok[2]); if (o < 0) return -1; return KSI_AsyncService_setOption(*kx_asvcslot(atoi(tok[1])), o, (void *)(size_t)strtoull(tok[3], NULL, 0)); }
 	if (is("async_pushconf")) { return KSI_AsyncService_setOption(*kx_asvcslot(atoi(tok[1])), KSI_ASYNC_OPT_PUSH_CONF_CALLBACK, (void *)conf_cb); }
 	if (is("async_add")) { /* async_add <a> <c> sign <imprint> <level> <tag> | ext <aggrtime> <pubtime|-> <tag> | conf <tag> */
-		KSI_AsyncService *s = *kx_asvcslot(atoi(tok[1])); KSI_CTX *c = kx_ctx(atoi(tok[2])); KSI_AsyncHandle *h = NULL; int rc; const char *tag;
+		KSI_AsyncService *s = *kx_asvcslot(atoi(tok[1])); KSI_CTX *c = kx_ctx(atoi(tok[2])); KSI_AsyncHandle *h = NULL; int rc; const char *tag; KSI_PublicationRecord *borrowed_pr = NULL;
 		if (!strcmp(tok[3], "sign")) { KSI_DataHash *dh = hash_arg(c, tok[4], &rc); KSI_AggregationReq *rq = NULL; KSI_Integer *lv = NULL; if (!dh) return rc;
 			KSI_AggregationReq_new(c, &rq); KSI_AggregationReq_setRequestHash(rq, dh); if (atoi(tok[5]) > 0) { KSI_Integer_new(c, strtoull(tok[5], NULL, 0), &lv); KSI_AggregationReq_setRequestLevel(rq, lv); }
 			rc = KSI_AsyncAggregationHandle_new(c, rq, &h); if (rc) { KSI_AggregationReq_free(rq); return rc; } tag = tok[6]; }
 		else if (!strcmp(tok[3], "ext")) { KSI_ExtendReq *rq = NULL; KSI_Integer *a = NULL, *p = NULL; KSI_ExtendReq_new(c, &rq); KSI_Integer_new(c, strtoull(tok[4], NULL, 0), &a); KSI_ExtendReq_setAggregationTime(rq, a);
 			if (strcmp(tok[5], "-")) { KSI_Integer_new(c, strtoull(tok[5], NULL, 0), &p); KSI_ExtendReq_setPublicationTime(rq, p); }
 			rc = KSI_AsyncExtendHandle_new(c, rq, &h); if (rc) { KSI_ExtendReq_free(rq); return rc; } tag = tok[6]; }
+		else if (!strcmp(tok[3], "extsig")) { KSI_Signature *sg = *kx_sigslot(atoi(tok[4])); KSI_PublicationRecord *pr = NULL; KSI_PublicationData *pd = NULL;
+			if (strcmp(tok[5], "-")) { rc = KSI_PublicationData_fromBase32(c, tok[5], &pd); if (rc) return rc; KSI_PublicationRecord_new(c, &pr); KSI_PublicationRecord_setPublishedData(pr, pd); }
+			rc = KSI_AsyncExtendingHandle_new(c, sg, pr, &h); if (rc) { KSI_PublicationRecord_free(pr); return rc; } borrowed_pr = pr; tag = tok[6]; }
 		else if (!strcmp(tok[3], "signconf")) { KSI_AggregationReq *rq = NULL; KSI_Config *cfg = NULL; KSI_AggregationReq_new(c, &rq); KSI_Config_new(c, &cfg); KSI_AggregationReq_setConfig(rq, cfg); rc = KSI_AsyncAggregationHandle_new(c, rq, &h); if (rc) { KSI_AggregationReq_free(rq); return rc; } tag = tok[4]; }
 		else return -1;
-		KSI_AsyncHandle_setRequestCtx(h, strdup(tag), tag_free);
+		{ TagCtx *tc = calloc(1, sizeof *tc); snprintf(tc->tag, sizeof tc->tag, "%s", tag); tc->pr = borrowed_pr; KSI_AsyncHandle_setRequestCtx(h, tc, tag_free); }
 		rc = KSI_AsyncService_addRequest(s, h);
 		if (rc != KSI_OK) KSI_AsyncHandle_free(h);
 		else { KSI_uint64_t id = 0; KSI_AsyncHandle_getRequestId(h, &id); kx_out(" reqid=%llu", (unsigned long long)id); }
